@@ -8,7 +8,7 @@ package keyid
 //vsym:model encoding/json.Unmarshal t05Unmarshal
 //vsym:include C05/s05.go
 //vsym:replay same-harness
-//vsym:expect-cover C05.text.ok C05.text.refused C05.text.missing-key C05.text.roundtrip C05.text.second-ok
+//vsym:expect-cover C05.text.ok C05.text.refused C05.text.missing-key C05.text.roundtrip C05.text.second-ok C05.text.retyped
 //vsym:bound H05_text_*: the text handed to Unmarshal is a genuine JSON object (not a token): keys in struct order, every string value L symbolic bytes (L in {0,1,3,5,7}; thorough also 10,11,13) from the printable ASCII set without the characters JSON or encoding/json escape, booleans symbolic (rendered `true ` / `false`), numbers one symbolic decimal digit, version also null, at most one key absent (thorough: two) or null or written in upper case only, the version stated twice in different case, or a text that is not JSON
 //vsym:bound H05_text_twice: first text: string length 1 or 7, one principal, every key / first or last key absent / last key null / not JSON; decode, overwrite every flag of the result with arbitrary values, decode again either the same text or a second text (same string length, one principal, every key or all but one of the first two)
 //vsym:bound H05_text_roundtrip: Marshal of a KeyID with one-digit numbers produces the exact encoding/json text; decode, overwrite the result, decode the same text again
@@ -28,6 +28,7 @@ type t05Doc struct {
 	null    map[string]bool   // JSON name -> the value is null
 	raw     map[string]string // JSON name -> value text
 	exactVer *uint16          // the value under the exact key "ver" when "VER" states another one
+	retyped map[string]bool   // JSON name -> the value has another JSON type than the field (a string for a boolean, a number or a list; a number for a string)
 	variant map[string]bool   // JSON name -> the text (also) carries the key in upper case (encoding/json matches struct fields case-insensitively, a map does not)
 }
 
@@ -113,8 +114,11 @@ func t05Fresh(tag string, nprins int) KeyID {
 // caseOnly: JSON names written in upper case instead of their exact spelling
 var t05CaseOnly map[string]bool
 
+// t05Retyped: the JSON name whose value is written with another JSON type
+var t05Retyped string
+
 func t05Render(k *KeyID, exact bool, absent map[string]bool, nullName string) *t05Doc {
-	d := &t05Doc{present: map[string]bool{}, null: map[string]bool{}, raw: map[string]string{}, variant: map[string]bool{}}
+	d := &t05Doc{present: map[string]bool{}, null: map[string]bool{}, raw: map[string]string{}, variant: map[string]bool{}, retyped: map[string]bool{}}
 	d.kid = *k
 	d.kid.Principals = append([]string(nil), k.Principals...)
 	if k.Principals != nil && d.kid.Principals == nil {
@@ -172,6 +176,16 @@ func t05Render(k *KeyID, exact bool, absent map[string]bool, nullName string) *t
 		if name == nullName {
 			val = []byte("null")
 			d.null[name] = true
+		}
+		if name == t05Retyped && name != nullName {
+			d.retyped[name] = true
+			d.null[name] = false
+			switch goName {
+			case "TransID", "ReqUser", "ReqIP", "ReqHost":
+				val = []byte("7")
+			default:
+				val = []byte(`"1"`)
+			}
 		}
 		if absent[name] || (exact && omit && zero) {
 			d.present[name] = false
@@ -235,6 +249,13 @@ func t05Any(d *t05Doc, name string) interface{} {
 	if d.null[name] {
 		return nil
 	}
+	if d.retyped[name] {
+		switch name {
+		case "transID", "reqUser", "reqIP", "reqHost":
+			return float64(7)
+		}
+		return "1"
+	}
 	k := &d.kid
 	switch name {
 	case "prins":
@@ -283,12 +304,19 @@ func t05Unmarshal(data []byte, v any) error {
 		return errors.New("model: invalid JSON")
 	}
 	set := func(name string) bool { return (d.present[name] || d.variant[name]) && !d.null[name] }
+	typeErr := false
 	switch dst := v.(type) {
 	case *KeyID:
 		for _, f := range vJSONFields(dst) {
 			p := strings.Split(f, "|")
 			if !set(p[1]) {
 				continue // absent or null: the destination keeps what it had
+			}
+			if d.retyped[p[1]] {
+				// a value of the wrong type: the field keeps what it had, the
+				// other fields are decoded, and the call reports a type error
+				typeErr = true
+				continue
 			}
 			switch p[0] {
 			case "Principals":
@@ -318,6 +346,9 @@ func t05Unmarshal(data []byte, v any) error {
 			default:
 				panic("t05: KeyID has a field the JSON model does not know: " + p[0])
 			}
+		}
+		if typeErr {
+			return errors.New("model: json: cannot unmarshal a value of another type into that field")
 		}
 		return nil
 	case *map[string]interface{}:
@@ -414,7 +445,7 @@ func t05ArbitraryIn(tag string, reduced bool) *t05Doc {
 	if reduced {
 		shape = 1 + vChoose(3, tag+"shape")
 	} else {
-		shape = vChoose(2+3*n+1, tag+"shape")
+		shape = vChoose(2+4*n+1, tag+"shape")
 	}
 	t05CaseOnly = nil
 	var d *t05Doc
@@ -436,9 +467,13 @@ func t05ArbitraryIn(tag string, reduced bool) *t05Doc {
 	case shape < 2+3*n:
 		// one key occurs only in upper case
 		t05CaseOnly = map[string]bool{names[shape-2-2*n]: true}
+	case shape > 2+3*n:
+		// one value has another JSON type than its field
+		t05Retyped = names[shape-3-3*n]
 	}
 	d = t05Render(&k, false, absent, nullName)
 	t05CaseOnly = nil
+	t05Retyped = ""
 	if shape == 2+3*n {
 		// every key, and after them "VER" with another value: the struct
 		// field takes the last one, a map keeps both keys
@@ -474,6 +509,14 @@ func t05Oracle(d *t05Doc, k *KeyID, err error, crashed bool, tag string) {
 	}
 	if d.invalid {
 		vAssert(err != nil, "C05.text-not-json-is-refused")
+	}
+	for _, r := range d.retyped {
+		if r {
+			// encoding/json reports the mismatch; what comes back would not
+			// be what the text states
+			vAssert(err != nil, "C05.text-retyped-field-is-refused")
+			vReach("C05.text.retyped")
+		}
 	}
 	if err != nil {
 		vAssert(k == nil, "C05.text-error-returns-nil")
